@@ -548,7 +548,24 @@ def check_homogeneous(ck, F, S):
     for f in sorted(ops, key=lambda f: f['id']):
         outs = S.run(f['id'])
         rs = sorted(contracts.render(v, st, {}) + ' if ' + contracts.render_conds(st.conds, st, {}) for st, k, v in outs if k == 'return')
-        good = len(rs) == 2 and any(r.startswith('absent if !') for r in rs) and any(r.startswith('some($this.decl)') for r in rs) \
-            and all('$this.decl' in r.split(' if ')[1] and 'P0' in r.split(' if ')[1] for r in rs)
+        # decided on the paths: one identity test between the requested type and the held declaration's type; the declaration
+        # when they are the same object, nothing when they are not (whichever way round the test is written)
+        seen_cases = set()
+        good = len(outs) == 2
+        for st, k, v in outs:
+            if k != 'return' or len(st.conds) != 1:
+                good = False
+                continue
+            c, b = st.conds[0]
+            if not (isinstance(c, tuple) and c[:1] == ('op',) and len(c) == 4 and c[1] in ('==', '!=')):
+                good = False
+                continue
+            same = (c[1] == '==') == bool(b)
+            sides = [contracts.render(x, st, {}) for x in c[2:]]
+            good = good and any(x == '&P0' for x in sides) and any(x.startswith('&$this.decl') for x in sides)
+            res = contracts.render(v, st, {})
+            good = good and (res.startswith('some($this.decl)') if same else res == 'absent')
+            seen_cases.add(same)
+        good = good and seen_cases == {True, False}
         ck.check(R, contracts.short(f['parent']) + '::operator[]', good,
                  f'singleton overload selects {rs}', loc=f['loc'], fn=f['id'])
